@@ -272,6 +272,22 @@ func (ex *Exec) constVal(c *ssa.Const) Value {
 	if c.Value == nil {
 		return ex.Zero(t)
 	}
+	if _, isTP := t.(*types.TypeParam); isTP {
+		// go/ssa writes the zero value of a type parameter with a numeric/string core type as 0:T / "":T
+		isZero := false
+		switch c.Value.Kind() {
+		case constant.Int, constant.Float:
+			isZero = constant.Sign(c.Value) == 0
+		case constant.String:
+			isZero = constant.StringVal(c.Value) == ""
+		case constant.Bool:
+			isZero = !constant.BoolVal(c.Value)
+		}
+		if isZero {
+			return ex.Zero(t)
+		}
+		ex.Inconclusive("non-zero constant of type-parameter type")
+	}
 	switch c.Value.Kind() {
 	case constant.Bool:
 		return ex.C.BoolC(constant.BoolVal(c.Value))
@@ -425,6 +441,12 @@ func (ex *Exec) unop(fr *frame, i *ssa.UnOp) Value {
 
 // ValueEq returns a Bool term for Go's == on two values.
 func (ex *Exec) ValueEq(a, b Value) *smt.Term {
+	if eq, ok := a.(Equaler); ok {
+		return eq.EqualTo(ex, b)
+	}
+	if eq, ok := b.(Equaler); ok {
+		return eq.EqualTo(ex, a)
+	}
 	an, aknown := IsNil(a)
 	bn, bknown := IsNil(b)
 	if aknown && bknown && (an || bn) {
